@@ -276,7 +276,7 @@ class Gen:
         for k in range(len(shape)):
             kd = rng.choice(["sample", "range", "set", "setnolabel"])
             if kd == "sample":
-                iv, u = rng.choice([0.5, 1.0, 2.0, 0.001]), gen_unit(rng)
+                iv, u = rng.choice([0.5, 1.0, 2.0, 0.001, 1e-9, 2.5e-12, 1e9, 5e-324]), gen_unit(rng)     # any positive interval is a positive interval
                 da.append_sampled_dimension(iv, unit=u, offset=rng.choice([None, 1.0]) if u else None)
                 a["dims"].append({"kind": "sample", "interval": iv, "unit": u})
             elif kd == "range":
@@ -539,7 +539,7 @@ def injections(nix, np):
         a, i = pick_array(G, "sample")
         if a is None:
             return None
-        v = G.rng.choice([-1.0, -0.001, -1e9])
+        v = G.rng.choice([-1.0, -0.001, -1e9, -1e-9, -3e-15])
         dim(G, a, i).sampling_interval = v
         a["dims"][i]["interval"] = v
         return "sample"
